@@ -302,7 +302,7 @@ def amplify(r, e, p, lits):
                 return ['right', ['expect', ['left', e, ['opt', ['lit', t1]]]], e]
             return ['right', ['expectnot', ['expectnot', e]], e]
         return e
-    if k in ('lit', 're', 'super', 'py', 'hook', 'optable', 'call'):
+    if k in ('lit', 're', 'super', 'py', 'hook', 'optable', 'call', 'kwcall', 'num', 'repn'):
         return e
     out = list(e)
     if k in ('seq', 'alt', 'longest', 'skip'):
